@@ -140,6 +140,9 @@ def _mono_mul(k1, k2):
     return tuple(sorted((a, e) for a, e in d.items() if e != 0))
 
 
+_CMP = {'Eq': '==', 'NotEq': '!=', 'Lt': '<', 'LtE': '<=', 'Gt': '>', 'GtE': '>=', 'Is': 'is', 'IsNot': 'is not', 'In': 'in', 'NotIn': 'not in'}
+
+
 class Lin:
     """Expression -> Form translator with an SSA environment.
 
@@ -184,6 +187,8 @@ class Lin:
                 return -self.form(node.operand)
             if isinstance(node.op, ast.UAdd):
                 return self.form(node.operand)
+            if isinstance(node.op, ast.Not):
+                return Form.atom('(not %s)' % self.text(node.operand))
             return Form.atom('(%s %s)' % (type(node.op).__name__, self.text(node.operand)))
         if isinstance(node, ast.BinOp):
             a = self.form(node.left)
@@ -228,6 +233,17 @@ class Lin:
             return Form.atom('%s.%s' % (self._recv_text(node.value), node.attr))
         if isinstance(node, ast.Subscript):
             return Form.atom('%s[%s]' % (self._recv_text(node.value), self._slice_text(node.slice)))
+        if isinstance(node, ast.Compare):
+            parts = [self.text(node.left)]
+            for op, c in zip(node.ops, node.comparators):
+                parts.append(_CMP.get(type(op).__name__, type(op).__name__))
+                parts.append(self.text(c))
+            return Form.atom('(%s)' % ' '.join(parts))
+        if isinstance(node, ast.BoolOp):
+            j = ' and ' if isinstance(node.op, ast.And) else ' or '
+            return Form.atom('(%s)' % j.join(self.text(v) for v in node.values))
+        if isinstance(node, ast.UnaryOp) and isinstance(node.op, ast.Not):
+            return Form.atom('(not %s)' % self.text(node.operand))
         if isinstance(node, ast.IfExp):
             if self.decide is not None:
                 d = self.decide(node.test, self)
